@@ -30,6 +30,12 @@ def type_values():
     T['char5'] = ('char(5)', [None if i % 7 == 6 else lit_str(ch[i % len(ch)]) for i in range(40)])
     T['interval'] = ('interval', [None if i % 5 == 4 else "interval '%d' %s" % ([1, 3, 14, 400, 7, 7, 7, 7][i % 8], ['day', 'month', 'month', 'day', 'year', 'day', 'day', 'day'][i % 8]) for i in range(40)])
     T['decimal'] = ('decimal(10,2)', [None if i % 6 == 1 else ['0.00', '1.25', '-99999999.99', '99999999.99', '3.50', '3.50', '3.50', '3.50', '3.50'][i % 9] for i in range(40)])
+    # columns whose first array holds no NULL and whose later arrays do (a compaction pass feeds the column builder one
+    # array per row-set; a block opened by the first may still be open when the next arrives)
+    T['varchar-late-nulls'] = ('varchar', [lit_str(strs[i % len(strs)]) if i < 17 or i % 3 else None for i in range(40)])
+    T['char5-late-nulls'] = ('char(5)', [lit_str(ch[i % len(ch)]) if i < 17 or i % 3 else None for i in range(40)])
+    T['int-late-nulls'] = ('int', [str(i * 3) if i < 17 or i % 3 else None for i in range(40)])
+    T['double-late-nulls'] = ('double', ["cast('%s' as double)" % dbl[i % len(dbl)] if i < 17 or i % 4 else None for i in range(40)])
     T['int-not-null'] = ('int not null', [str([5, 5, 5, 5, 5, 5, 5, 5, 9, 9, 9, 9, 9, 9, 1, 2][i % 16]) for i in range(40)])
     return T
 
